@@ -9,7 +9,7 @@ from __future__ import annotations
 
 from typing import Any
 
-from asphalt.core import Component, add_resource
+from asphalt.core import Component, add_resource, add_resource_factory
 
 TABLE: dict[int, dict[str, Any]] = {}
 LOG: list[dict[str, Any]] = []       # constructor calls in order
@@ -34,13 +34,19 @@ class _Base(Component):
         for alias, ty, kw in spec.get("children", []):
             self.add_component(alias, ty, **kw)
 
+    def _publish(self, names: list[str]) -> None:
+        # alternately a resource and a resource factory: the naming rule is the same for both
+        for k, name in enumerate(names):
+            if (k + self.idx) % 2:
+                add_resource_factory(lambda: object(), name, types=[self.marker])
+            else:
+                add_resource(object(), name, types=[self.marker])
+
     async def prepare(self) -> None:
-        for name in TABLE.get(self.n, {}).get("prepare_adds", []):
-            add_resource(object(), name, types=[self.marker])
+        self._publish(TABLE.get(self.n, {}).get("prepare_adds", []))
 
     async def start(self) -> None:
-        for name in TABLE.get(self.n, {}).get("start_adds", []):
-            add_resource(object(), name, types=[self.marker])
+        self._publish(TABLE.get(self.n, {}).get("start_adds", []))
 
 
 K0 = type("K0", (_Base,), {"n": 0})
